@@ -234,6 +234,13 @@ def do_selftest(prop, args):
     shapes = prop.shapes(args.tier)
     ok = True
     for name in sorted(prop.MUTANTS):
+        stale = [mod for mod, (old, _new) in prop.MUTANTS[name].items()
+                 if open(os.path.join(loader.REPO, 'cgsmiles', mod + '.py')).read().count(old) != 1]
+        if stale:
+            # the anchor text is gone from /repo (the code was changed): report instead of letting the pool respawn forever
+            print("SELFTEST mutant=%s STALE (anchor text not found exactly once in %s)" % (name, ','.join(stale)))
+            ok = False
+            continue
         results = run_all(prop, shapes, args, mutant=name, stop_on_ce=True)
         nce = sum(len(r['ces']) for r in results)
         print("SELFTEST mutant=%s %s" % (name, "detected" if nce else "MISSED"))
